@@ -28,7 +28,7 @@ RULE = (
 COMPONENTS_REAL = ["pdfminer.pdfparser.PDFParser.do_keyword (stream branch)", "pdfminer.pdftypes.PDFStream.get_filters/decode", "pdfminer.lzw / ascii85 / runlength / zlib", "pdfminer.utils.apply_png_predictor / apply_tiff_predictor", "pdfminer.pdfdocument.getobj"]
 COMPONENTS_STUB = ["file object: io.BytesIO over SimWriter output", "BUFSIZ chunk seam", "eviction wrapper", "encoders: sim.encoders (independent)"]
 ASSUMPTIONS = ["supported predictor geometry: PNG bits 8 or 1, TIFF bits 8; colours 1..4; columns 1..40", "LZW with default EarlyChange=1"]
-PROBES = ["run under settings.STRICT", "damaged data decoded first", "payload of tens of kilobytes", "indirect Length", "indirect Length after stream", "indirect Filter", "indirect DecodeParms", "payload contains endstream", "stream EOL crlf", "lzw beyond 9 bits", "lzw table reset", "png predictor", "png predictor colours>1", "png predictor 1-bit", "tiff predictor", "chain length 3", "abbreviated filter name", "boundary placed at stream keyword", "eviction happened"]
+PROBES = ["bare filter name with a one-element DecodeParms array", "run under settings.STRICT", "damaged data decoded first", "payload of tens of kilobytes", "indirect Length", "indirect Length after stream", "indirect Filter", "indirect DecodeParms", "payload contains endstream", "stream EOL crlf", "lzw beyond 9 bits", "lzw table reset", "png predictor", "png predictor colours>1", "png predictor 1-bit", "tiff predictor", "chain length 3", "abbreviated filter name", "boundary placed at stream keyword", "eviction happened"]
 TIERS = {
     "quick": {"batches": 16, "runs": 1500, "budget_s": 90},
     "thorough": {"batches": 128, "runs": 3000, "budget_s": 900},
@@ -251,7 +251,11 @@ def run_inner(tape, ctx, item=None):
                 arr[pred_stage] = maybe_indirect(pv, "parms.elem", "indirect DecodeParms")
                 pv = arr
                 if not isinstance(fv, list) and not isinstance(fv, Ref):
-                    sd[b"Filter"] = [fv]
+                    if t.coin(50, 100, "parms.barename"):
+                        # a bare filter name together with a one-element parameter array: one filter, one set of parameters
+                        ctx.probe("bare filter name with a one-element DecodeParms array")
+                    else:
+                        sd[b"Filter"] = [fv]
             sd[b"DecodeParms"] = maybe_indirect(pv, "parms.ind", "indirect DecodeParms")
     length_indirect = t.coin(40, 100, "length.ind")
     sid = 5
